@@ -76,6 +76,8 @@ def lock_programs():
 
 LOCKS = lock_programs()
 LOCK_BYTES = [spaces.render(l, 0x60) for l in LOCKS]
+CALL_LOCK_BYTES = [spaces.render(l, 0x60) for l in LOCKS if any(s[0] in ('CALL0', 'CALL1') for s in l)] + \
+    [spaces.render(l, 0x60) for l in ((('SPEND',), ('T',)), (('SPEND',), ('SPEND',), ('T',)), (('EVAL', (('T',),)),))]
 
 CACHES = [{}, {'sigfield1': b'abc'}, {b'k': [b'\x01']}, {'timestamp': 0}, {'returned': True}, {'returned': False},
           {b'returned': [b'\x01']}]
@@ -116,10 +118,6 @@ def judge(ctx, scripts, cache, limits, sig):
     if type(want) is tuple:
         ctx.unspec(want[1])
         return
-    if want is not got and e.loop_ret_seen:
-        want2, _ = ref_auth(scripts, ro=ro, limits=limits, cache0=c0, loop_return='propagate')
-        if want2 is got:
-            want = want2
     ctx.outcome('%s' % got)
     if want is not got:
         ctx.violation({**sig, 'clause': 'verdict', 'got': got},
@@ -259,6 +257,13 @@ def multi(ctx, ws):
         n += 1
         ctx.state(('multi', tuple(wbs), lb))
         judge(ctx, wbs + [lb], {}, DEFAULT_LIMITS, {'family': 'lists of %d scripts' % (len(ws) + 1)})
+    # the cumulative call count of the documents: calls made at the top level of the middle scripts count against the lock
+    if any(s[0] in ('CALL0', 'CALL1', 'SPEND', 'DEF0', 'DEF1') for w in ws for s in w):
+        for lb in CALL_LOCK_BYTES:
+            for cl in (1, 2, 3):
+                n += 1
+                ctx.state(('multi', tuple(wbs), lb, cl))
+                judge(ctx, wbs + [lb], {}, (1024, 1024, cl), {'family': 'lists of %d scripts under a call-stack limit' % (len(ws) + 1)})
     ctx.evaluations += n - 1
 
 
@@ -298,8 +303,6 @@ def deprecated(ctx, w):
     if type(want) is tuple:
         ctx.unspec(want[1])
         return
-    if want is not got and e.loop_ret_seen:
-        want, _ = ref_auth([wb], loop_return='propagate')
     if want is not got:
         ctx.violation({'family': 'run_auth_script', 'clause': 'verdict'}, f'{wb.hex()}: reference {want}, got {got}')
 
